@@ -60,6 +60,18 @@ fn plain(from: Vec<From>, where_: Option<Expr>, proj: Vec<Expr>) -> Query {
     Query::Select(Select { distinct: false, from, where_, grouping: None, having: None, proj, order: vec![], limit: None, offset: None })
 }
 
+/// `column op value` over the joined row of tables `ta`, `tb`, with a value that occurs in that column (so
+/// the predicate is TRUE for some rows and not for others)
+fn present_pred(r: &mut Rng, d: &DbDef, ta: usize, tb: usize, wa: usize, tys: &[Ty]) -> Expr {
+    let i = r.below(tys.len() as u64) as usize;
+    let (t, c) = if i < wa { (ta, i) } else { (tb, i - wa) };
+    let rows = &d.tables[t].rows;
+    let v = if rows.is_empty() { gen_val(r, tys[i], 0) } else { rows[r.below(rows.len() as u64) as usize][c].clone() };
+    let v = if matches!(v, Val::Null) { gen_val(r, tys[i], 0) } else { v };
+    let op = *r.pick(&[BinOp::Eq, BinOp::Eq, BinOp::Le, BinOp::Gt, BinOp::Ne]);
+    Expr::Bin(op, Box::new(Expr::Col(0, i)), Box::new(Expr::Const(v)))
+}
+
 fn bag(rows: &[Vec<Val>]) -> BTreeMap<String, i64> {
     let mut m = BTreeMap::new();
     for r in rows {
@@ -87,6 +99,11 @@ fn main() {
         let big = k % 10 == 9;
         let dbdef = gen_db(&mut r, 3, if big { 30 } else { 7 });
         let mut db = load_db(&dbdef);
+        // every other database also has secondary indexes (results must not depend on them)
+        let index_ddl = if k % 2 == 1 { add_random_indexes(&mut db, &dbdef, &mut r, "c05") } else { Vec::new() };
+        if !index_ddl.is_empty() {
+            sum.count("database:with-indexes");
+        }
         let mut cases = Vec::new();
         for _ in 0..per_db {
             let kind = r.below(5);
@@ -160,7 +177,21 @@ fn main() {
                             let ib: Vec<usize> = (wa..wa + wb).filter(|i| jscope[0][*i] == Ty::Int).collect();
                             if !ia.is_empty() && !ib.is_empty() {
                                 let eq = Expr::Bin(BinOp::Eq, Box::new(Expr::Col(0, *g.r.pick(&ia))), Box::new(Expr::Col(0, *g.r.pick(&ib))));
-                                if g.r.chance(1, 3) { Expr::Bin(BinOp::And, Box::new(eq), Box::new(g.expr(Ty::Bool, &jscope, 1))) } else { eq }
+                                match g.r.below(6) {
+                                    0..=1 => Expr::Bin(BinOp::And, Box::new(eq), Box::new(g.expr(Ty::Bool, &jscope, 1))),
+                                    // disjunctions around an equi-condition: (eq AND p) OR q, eq OR q, (eq AND p) OR (eq' AND q):
+                                    // the hash-join analysis of OR conditions must not lose the branches without an equi-join
+                                    2 => {
+                                        let p1 = present_pred(g.r, &dbdef, ta, tb, wa, &jscope[0]);
+                                        let q1 = present_pred(g.r, &dbdef, ta, tb, wa, &jscope[0]);
+                                        Expr::Bin(BinOp::Or, Box::new(Expr::Bin(BinOp::And, Box::new(eq), Box::new(p1))), Box::new(q1))
+                                    }
+                                    3 => {
+                                        let q1 = present_pred(g.r, &dbdef, ta, tb, wa, &jscope[0]);
+                                        if g.r.chance(1, 2) { Expr::Bin(BinOp::Or, Box::new(eq), Box::new(q1)) } else { Expr::Bin(BinOp::Or, Box::new(q1), Box::new(eq)) }
+                                    }
+                                    _ => eq,
+                                }
                             } else {
                                 g.expr(Ty::Bool, &jscope, 1)
                             }
